@@ -95,6 +95,25 @@ PROPS["C14"] = {
     "assumptions": [],
 }
 
+PROPS["C10"] = {
+    "modules": ["SlogModel.Props.C10"],
+    "components": [("ser", 20000, 150000)],
+    "rule": "one case = one real eventSerializer (generated schema of 2-20 fields, environment / hidden / rewritten field "
+            "choice, chains inline* + copy|unescape) serializing 4 records (each twice: two outputs), bytes compared exactly with "
+            "the model and decoded with the vmihailenco decoder; field lengths from {0,1,15,16,17,255,256,65535,65536,70000}, "
+            "arbitrary bytes, every escape; plus the unescaper on all strings of length <= 4 over {\\,n,x,t}; distinct by ops; "
+            "all non-trivial",
+    "level_text": "Theorems C10_decode_encode (for every configuration and record with lengths below 2^32 the emitted bytes decode, "
+                  "by a MessagePack decoder written from the format specification, to [EventTime, {visible fields (rewritten where "
+                  "configured), environment: {…}}] with nothing left over), C10_time_roundtrip, C10_rewrite_fits, "
+                  "C10_unescape_length, C10_bound_sufficient (the repaired buffer sizing always suffices), proved in Lean 4 on a "
+                  "byte-exact model of eventserializer.go, the rewriters and the unescaper; tied to the code by byte-exact "
+                  "differential runs, the library decoder as oracle, and seven regenerated source facts.",
+    "level_note": "Trusted: Lean kernel + 3 standard axioms; the decoder spec MP.decode (written from the msgpack format); the "
+                  "sampled model-code correspondence; EventTime carries seconds mod 2^32 (theorem states the range).",
+    "assumptions": ["field / name lengths < 2^32 and fewer than 65535 fields (wire-format limits, hypotheses of the theorem)"],
+}
+
 NOT_APPLICABLE = {k: "check not built yet in this round (planned in DESIGN.md section 6); no claim is made" for k in
                   ["C%02d" % i for i in range(1, 20)]}
 
